@@ -164,6 +164,26 @@ CHECKS = {
             'back the identical object, trained ones reproduce training targets (1e-6), reloaded ones predict identically.',
             'The continuation of a reloaded model is observed but not asserted (not part of the statement; hidden state is not saved).',
             '2/C20'),
+    'C11': ('exploration',
+            'every permutation of solutes (real ternary databases) and of precipitate phases (analytic backends) compared with the identity order',
+            'elements: Ni-Cr-Al and Al-Mg-Si in both solute orders over a (T, x1, x2) lattice - four driving-force methods, interfacial '
+            'composition, curvature outputs, growth, impingement, inter- and tracer diffusivity (scalar and array API), mobility equal after '
+            'permutation (1e-8 rel); SinglePhase/Homogenization runs on N=5 nodes with permuted element order. phases: every order (2 + 6) of '
+            '2 and 3 precipitate phases with per-phase parameters travelling with the phase, both iterators, binary and ternary, each '
+            'step-size constraint made the binding one in turn: same time grid (1e-9) and per-phase histories merely permuted (1e-7).',
+            'Phase order changes summation order by ~1 ulp; the comparison horizon is measured per case with ulp-perturbed twins and steps '
+            'beyond it are counted as not compared; only the solutes are permuted (the reference element stays first).',
+            '2/C11'),
+    'C12': ('exploration',
+            'T x Gibbs-Thomson energy x supersaturation lattices on real and analytic binaries; per-step growth-sign oracle on monitored precipitation states',
+            'binary: Al-Zr, Cu-Ti and the analytic binary - DF(x_alpha(T,g)) = g (+1 J/mol offset) wherever x_alpha is not the sentinel, sign '
+            'change at the planar solvus, DF strictly increasing in x, x_alpha monotone in g, the sentinel sticky, four methods agree in sign '
+            'outside a stated band and in value for the stoichiometric phase. states: in every monitored state of analytic binary and '
+            'ternary runs with positive driving force and Rcrit > Rmin the growth rate is > 0 at least one class above Rcrit and < 0 at '
+            'least one class below.',
+            'The curvature method is a documented first-order expansion (value compared near the solvus only); binary non-isothermal states '
+            'use the interval Rcrit(T +- maxTempChange) as the lookup contract allows.',
+            '2/C12'),
 }
 
 NOT_YET = {}
